@@ -57,6 +57,7 @@ class Ctx:
         self.rlimit = rlimit
         self.pruned = 0
         self.unknown_decisions = 0
+        self.float_lifts = 0       # float constants that entered proxy arithmetic (exactness checks)
         self._solver = None
 
     # -- fresh variables
@@ -186,6 +187,7 @@ def lift(o):
             c = cur()
             c.notes.append('non-finite float entered the computation')
             return c.fresh('nan')
+        cur().float_lifts += 1
         fr = snap_float(f)
         return z3.Q(fr.numerator, fr.denominator)
     if z3.is_expr(o) and z3.is_arith(o):
